@@ -20,6 +20,7 @@ type Case struct {
 	Tree  *Node    `json:"tree,omitempty"`
 	Exp   []Expect `json:"exp,omitempty"` // C16: values the un-mutated reply encodes
 	ErrNo int      `json:"errno,omitempty"`
+	Pick  uint64   `json:"pick,omitempty"` // sweep: seed of the sample that also goes to the model
 	Cls   string   `json:"cls,omitempty"`
 	Text  string   `json:"text,omitempty"`
 }
@@ -70,7 +71,10 @@ func genCase(r *gen.Rand, i int) any {
 	case x == 3:
 		t := randTree(r, 2)
 		return Case{Op: "reserr", ErrNo: r.Range(1, 9), Tree: &t}
-	case x < 10: // well shaped
+	case x < 7: // well shaped seed reply + every systematic deformation of it
+		s := genShapedSmall(r)
+		return Case{Op: "sweep", Kind: "shaped:" + s.Kind, Tree: &s.Tree, Pick: r.U64()}
+	case x < 11: // well shaped
 		s := genShaped(r)
 		return Case{Op: "tree", Kind: "shaped:" + s.Kind, Tree: &s.Tree, Exp: s.Exp}
 	case x < 17: // mutated
@@ -107,10 +111,15 @@ var propFlag = flag.String("prop", "C15", "C15 | C16")
 
 var viaToString = map[string]bool{"ToString": true, "AsReader": true, "AsBytes": true, "DecodeJSON": true, "AsInt64": true, "AsUint64": true, "AsFloat64": true}
 
-func run(ci any) (res obs.Result) {
+func run(ci any) obs.Result {
 	c := ci.(Case)
+	res := runCase(c)
 	raw, _ := json.Marshal(c)
 	res.Sig = string(raw)
+	return res
+}
+
+func runCase(c Case) (res obs.Result) {
 	switch c.Op {
 	case "cls":
 		return runCls(c)
@@ -141,17 +150,35 @@ func run(ci any) (res obs.Result) {
 		res.Nontrivial = true
 		return
 	}
+	if c.Op == "sweep" {
+		return runSweep(c)
+	}
 	// ---- tree
 	res.Kind = c.Kind
-	t := *c.Tree
+	ev := evalTree(*c.Tree, c.Exp)
+	res.Oracle, res.Site, res.Class = ev.oracle, ev.site, ev.class
+	res.Coq = "(CTree " + ev.coq + ")"
+	res.Nontrivial = ev.nodes > 1
+	res.Obs = map[string]any{"nodes": ev.nodes, "accessors_ok": ev.okc}
+	return
+}
+
+type treeEval struct {
+	coq                 string // the four arguments of CTree
+	oracle, site, class string
+	nodes, okc          int
+}
+
+// evalTree runs every accessor on one reply tree and evaluates the direct oracles of the selected property.
+func evalTree(t Node, exp []Expect) (ev treeEval) {
 	msg := t.build()
 	rr := rueidis.NewResult(msg, nil)
 	tbl, fi := libTables(&t)
 	var obsv []string
 	outs := map[string]Outcome{}
 	fail := func(site, class, f string, a ...any) {
-		if res.Oracle == "" {
-			res.Oracle, res.Site, res.Class = fmt.Sprintf(f, a...), "message.go:"+site, class
+		if ev.oracle == "" {
+			ev.oracle, ev.site, ev.class = fmt.Sprintf(f, a...), "message.go:"+site, class
 		}
 	}
 	topErr := t.T == '-' || t.T == '!'
@@ -202,10 +229,10 @@ func run(ci any) (res obs.Result) {
 		}
 	}
 	if len(panics) > 1 {
-		res.Oracle += " (all panicking accessors: " + strings.Join(panics, ", ") + ")"
+		ev.oracle += " (all panicking accessors: " + strings.Join(panics, ", ") + ")"
 	}
 	// (5) C16: the un-mutated reply gives back exactly the data it encodes
-	for _, e := range c.Exp {
+	for _, e := range exp {
 		if *propFlag != "C16" {
 			break
 		}
@@ -228,17 +255,48 @@ func run(ci any) (res obs.Result) {
 			fail(e.Acc, "value", "%s returned %.300s, the reply encodes %.300s", e.Acc, got, e.Val)
 		}
 	}
-	res.Coq = obs.App("CTree", t.coq(), tbl, fi, obs.List(obsv))
-	nodes := 0
-	t.walk(func(*Node) { nodes++ })
-	res.Nontrivial = nodes > 1
-	okc := 0
+	ev.coq = t.coq() + " " + tbl + " " + fi + " " + obs.List(obsv)
+	t.walk(func(*Node) { ev.nodes++ })
 	for _, o := range outs {
 		if o.Kind == "ok" {
-			okc++
+			ev.okc++
 		}
 	}
-	res.Obs = map[string]any{"nodes": nodes, "accessors_ok": okc}
+	return
+}
+
+// runSweep: the seed reply and EVERY systematic single deformation of it (every prefix of every aggregate, removal /
+// duplication of every element, every element replaced by every other kind of scalar / aggregate, every aggregate
+// retagged) go through all accessors and the direct oracles; a sample of them (chosen by c.Pick) also goes to the model.
+func runSweep(c Case) (res obs.Result) {
+	res.Kind = "sweep:" + strings.TrimPrefix(c.Kind, "shaped:")
+	seed := *c.Tree
+	defs := deformations(seed)
+	pick := gen.New(c.Pick)
+	sample := map[int]bool{0: true}
+	for len(sample) < 4 && len(sample) < len(defs) {
+		sample[pick.Intn(len(defs))] = true
+	}
+	var coqs []string
+	failed := 0
+	for i, d := range defs {
+		ev := evalTree(d.t, nil)
+		if ev.oracle != "" && ev.class != "wrong-shape-scalar-as-string" { // the known class is covered by the tree cases
+			failed++
+			if res.Oracle == "" {
+				tj, _ := json.Marshal(d.t)
+				res.Oracle = fmt.Sprintf("deformation %d (%s) of the seed reply: %s; failing reply as a case: {\"op\":\"tree\",\"kind\":\"sweep-witness\",\"tree\":%s}", i, d.how, ev.oracle, tj)
+				res.Site, res.Class = ev.site, ev.class
+				coqs = append(coqs, "("+strings.Join(splitArgs(ev.coq), ", ")+")")
+			}
+		}
+		if sample[i] {
+			coqs = append(coqs, "("+strings.Join(splitArgs(ev.coq), ", ")+")")
+		}
+	}
+	res.Coq = "(CTrees " + obs.List(coqs) + ")"
+	res.Nontrivial = len(defs) > 10
+	res.Obs = map[string]any{"deformations": len(defs), "failed": failed, "to_model": len(coqs)}
 	return
 }
 
